@@ -438,6 +438,9 @@ def run(rep, tier):
     recv_guards(rep, u)
     running_predicate(rep, us[tp.TP_C])
     rep.floor("TLS identity stores", tls_identity(rep, us[tp.TP_C]), 1)
+    # "the right thread": the completion message of a broadcast is addressed to its originator (rule lives in C10)
+    from props import c10
+    rep.floor("completion post sites", c10.completion_destination(rep, u), 2)
     return driver.finish(
         rep, "other",
         "Static analysis of threadpool_msg_sys.c. Decided: all %d acyclic paths of tpt_msg_send fall into the seven "
